@@ -648,7 +648,7 @@ func TestC31(t *testing.T) {
 	r.Rule("case = one client connection through the real lite.Forward: handshake (protocol in {47..775, 0, -1, 99999}, host spellings with optional surrounding dots, TCPShield ///ip:port///ts part, Forge part, random port, next state 2/3; a quarter with non-canonical inner VarInts and trailing frame bytes) x route options (proxyProtocol, modifyVirtualHost, tcpShieldRealIP: all 8) x first backend {none, refusing, accept-then-RST} x backend host spelling x client address (IPv4/IPv6, std or custom net.Addr type) x client body 0..1 MiB with 0..6000 bytes pipelined in the handshake's segment x backend body 0..1 MiB x Gate-side read chunking {off,1,3,7,64,1400}; random write chunkings both ways. distinct = distinct case tuple; non-trivial = all")
 	r.Assume("PROXY headers are parsed by github.com/pires/go-proxyproto; only the source address and the PROXY command are judged")
 	r.Assume("the TCPShield real-IP format (host///client///unixtime + re-attached Forge part) is Gate's documented format; the clause judged is that it is computed once, from the original handshake; the unix time may be any second between case start-2 and end+2")
-	r.Assume("streams are compared after both sides reached EOF; a stream that is merely a prefix after the 20 s watchdog is re-run alone with a 3x budget before it counts")
+	r.Assume("streams are compared after both sides reached EOF; a stream that is merely a prefix after the 8 s watchdog is re-run alone with a 3x budget before it counts")
 
 	n := r.N(240, 10000)
 	workers := 4
@@ -673,7 +673,7 @@ func TestC31(t *testing.T) {
 			defer w.close()
 			rng := r.Rng(fmt.Sprintf("w%d", wi))
 			for i := 0; i < n/workers; i++ {
-				if timeouts.Load() > 6 {
+				if timeouts.Load() > 3 {
 					r.Inconclusive("too many watchdog expiries; remaining cases of this worker skipped")
 					return
 				}
@@ -682,7 +682,7 @@ func TestC31(t *testing.T) {
 				if wi == 0 {
 					r.LogCase(c)
 				}
-				o := runCase(w, c, seed, 20*time.Second)
+				o := runCase(w, c, seed, 8*time.Second)
 				r.Eval(1)
 				vs, skipped := judge(w, c, o)
 				// truncation after a watchdog expiry: re-run alone with 3x budget
@@ -692,7 +692,7 @@ func TestC31(t *testing.T) {
 				}
 				if hasTrunc {
 					timeouts.Add(1)
-					o2 := runCase(w, c, seed, 60*time.Second)
+					o2 := runCase(w, c, seed, 24*time.Second)
 					vs2, _ := judge(w, c, o2)
 					still := false
 					for _, v := range vs2 {
